@@ -437,6 +437,31 @@ def gen_c03(tier, seed):
                 o = [ex(t, oo) if t else oo for t, oo in zip(pat, o)]
                 g.add(setup_ops(regs, [(DATA + 0xfc, be(0xa5a5a5a5, 4) * 4)], ins(OP['EXTFW'], *o) + [0x70, 0x70]) +
                       ['st', 'rw:%x' % (DATA + 0x100), 'rw:%x' % (DATA + 0x104), 'rw:%x' % (DATA + 0xfc)], 'etype4')
+    # every opcode of the table with operands in randomly chosen addressing modes (all 17), random expanded-type
+    # prefixes, random registers and condition codes: one step, whole state compared with the model
+    for o in sorted(ARCH_SIG):
+        sig = ARCH_SIG[o]
+        if 'd' not in sig:
+            continue
+        for _ in range(8 if tier == 'quick' else 150):
+            regsx, memx = {}, []
+            code = [o] if o < 0x100 else [o >> 8, o & 0xff]
+            slot = 0
+            for kch in sig:
+                if kch in 'BHW':
+                    code += [r.randrange(256) for _b in range({'B': 1, 'H': 2, 'W': 4}[kch])]
+                    continue
+                mode = r.choice(MODES_SRC)
+                val = r.choice(BVAL[4]) if r.random() < 0.5 else r.randrange(1 << 32)
+                opnd = operand_for(r, mode, DATA + 0x20 * slot + 4 * r.randrange(4), val, 4, regsx, memx, DATA + 0x200 + 8 * slot)
+                if r.random() < 0.25:
+                    opnd = ex(r.choice(list(ETYPE)), opnd)
+                code += opnd
+                slot += 1
+            regs = rnd_regs(r, psw_of(r.choice(allflags())))
+            regs.update(regsx)
+            g.add(setup_ops(regs, [(DATA, [r.randrange(256) for _b in range(0x100)])] + memx, code + [0x70] * 4) +
+                  ['st', 'gr', 'rw:%x' % DATA, 'rw:%x' % (DATA + 0x20), 'rw:%x' % (DATA + 0x40), 'rw:%x' % (DATA + 0x60)], 'opcode-soup')
     # instructions that read and write one operand and also change a register (SWAPxI exchanges it with %r0, INC / DEC /
     # CLR / MCOM in place): the operand addressed through each base register, %r0 included -- the store must go to the
     # address the operand had when the instruction started
@@ -472,7 +497,8 @@ def gen_c03(tier, seed):
                     'boundary displacements of every width, MOVAW / PUSHAW address probes at wrap-around addresses, operand '
                     'positions 2-3 via EXTFW, and every ordered pair of expanded types spread over three- and four-operand instructions '
                     '(prefix, different prefix, then un-prefixed operands); read-modify-write instructions (SWAPxI, INC, DEC, CLR, MNEG, MCOM) '
-                    'addressed through every base register including %r0.')
+                    'addressed through every base register including %r0; MOVTRW address probes; and every opcode of the table with operands in '
+                    'randomly chosen addressing modes and expanded types (one step, whole state compared).')
 
 
 # ----------------------------------------------------------------------------- C04 (decode engine)
